@@ -269,6 +269,11 @@ PROPS = {
         "verus": [("tree_node", [TN + "determine_node_to_get", TN + "get_appropriate_tree_node_from_storage", TN + "write_to_storage", "TreeNode.write_to_storage", "lemma_rot"]),
                   ("manager", [SM + "commit_transaction", SM + "write_committed_records", SM + "tic_toc", SM + "increment_metric", "DbRecord.transaction_priority"]),
                   "azks_insert", ("directory_lookup", ["Directory.get_lookup_info", "Directory.build_lookup_info", "get_marker_version", "Azks.get_latest_epoch", "Directory.key_history__head", "lemma_mask_is_filter", "Directory.poll_for_azks_changes"])],
+        "search": True,
+        "always_search": True,
+        "bounded_search": [{"obligation": "replay/c11#reader_of_partial_commit",
+                            "bound": "ONE crash point (every record of a commit written except the epoch record) of one three-epoch history in which one label was NOT updated in the previous epoch; fresh read-only instance with and without cache; "
+                                     "both configurations: previous epoch and root hash reported, lookups / histories / the audit proof verify with the values of completed epochs only, the new epoch is served once the record is written"}],
         "scope": "partial, record level: TreeNode::write_to_storage writes exactly {label, latest: self, previous: as-of(stored, epoch-1) or None when new}, and concludes 'no previous version' only from a NotFound answer (any other read failure fails the write); the poller of a cached instance compares the storage's epoch with the epoch the instance SERVES (a read through the cache), so an instance whose cache was filled before the epoch record arrived does flush it (last sentence of the property); rotation lemma: that record still "
                  "serves the as-of-(E) node at E and serves the new node at E+1; readers select by target epoch; the batch a commit hands to the database is non-empty only with the epoch "
                  "record last (else Err before any database write); Azks has the lowest commit priority; write discipline of the recursive batch insertion "
